@@ -291,7 +291,14 @@ func c15(run *core.Run, replay string) {
 	core.ParallelDo(len(vcs), 12, func(i int) {
 		vc := vcs[i]
 		data := gen.Make(vc.Shape, 12000+i%5000, vc.Seed)
-		cf := kz.Cfg{Transform: vc.T, Entropy: vc.E, BlockSize: 8192, Jobs: 1, Checksum: 32}
+		cf := kz.Cfg{Transform: vc.T, Entropy: vc.E, BlockSize: 8192, Jobs: uint(1 + i%2), Checksum: 32}
+		if i%4 == 3 {
+			// the skipBlocks option: incompressible blocks are stored as they are, the following ones must still be coded with the
+			// codecs the header names
+			cf.SkipBlocks = true
+			cf.BlockSize = 1024
+			data = append(gen.Make("random", 3000, vc.Seed), data...)
+		}
 		run.Eval(1)
 		refStream, rerr := refCompress(data, cf)
 		if rerr != nil {
